@@ -8,6 +8,7 @@ pub fn generate(kind: &str, r: &mut Rng, i: u64) -> Vec<String> {
         "smoke" => smoke(r, i),
         "link-exact" => link_exact(r, i),
         "link-burst" => link_burst(r, i),
+        "hostile" => hostile(r, i),
         _ => panic!("unknown generator {kind}"),
     }
 }
@@ -315,6 +316,274 @@ fn link_burst(r: &mut Rng, _i: u64) -> Vec<String> {
     l.push("settle".into());
     l.push("expect-drained".into());
     l.push("dropall".into());
+    l.push("settle".into());
+    l.push("end".into());
+    l
+}
+
+/// Hostile peer: only endpoint B is real; the script plays the remote endpoint by injecting
+/// frames.  A valid prefix (handshake, opened ports, data within credit) is followed by odd but
+/// legal frames and by one violating frame, after which local API calls must all return.
+fn hostile(r: &mut Rng, _i: u64) -> Vec<String> {
+    let chunk = *r.pick(&[4u64, 8, 16]);
+    let buf = *r.pick(&[4u64, 8, 16, 31]);
+    let cq = *r.pick(&[1u64, 2, 3]);
+    let ports = *r.pick(&[2u64, 4, 16]);
+    let rcq = *r.pick(&[1u64, 2, 8]);
+    let rbuf = *r.pick(&[4u64, 16, 64]);
+    let mut l = vec!["mode hostile".to_string()];
+    l.push(format!("cfg B chunk={chunk} buf={buf} cq={cq} ports={ports} maxdata=64"));
+    l.push("startb".into());
+    // handshake, possibly preceded by frames that must be ignored
+    if r.chance(1, 4) {
+        match r.below(3) {
+            0 => l.push("inject A 63".into()),
+            1 => l.push("injectm A ping".into()),
+            _ => l.push("inject A 0243484d55".into()),
+        }
+    }
+    l.push("injectm A reset".into());
+    let ver = if r.chance(1, 4) { 2 } else { 3 };
+    l.push(format!("injectm A hello {ver} 0 {} {rbuf} {rcq}", *r.pick(&[4u64, 8, 16])));
+    l.push("settle".into());
+    let mut k = 0u32;
+    let mut open: Vec<(String, u64)> = Vec::new(); // (name, unconsumed cost)
+    let mut next_cp = 1u32;
+    let mut unanswered = 0u64;
+    let mut bconn = 0u32; // OpenPort requests sent by B
+    let steps = r.range(2, 14);
+    let mut terminal = false;
+    for _ in 0..steps {
+        k += 1;
+        match r.below(24) {
+            0..=4 => {
+                // the peer opens a port and B accepts it
+                let cp = next_cp;
+                next_cp += 1;
+                let wait = r.bool() as u8;
+                if ver == 3 && r.bool() {
+                    l.push(format!("injectm A openPort {cp} {wait} {}", cp + 1000));
+                } else {
+                    l.push(format!("injectm A openPort {cp} {wait} -"));
+                }
+                let name = format!("p{k}");
+                l.push(format!("accept a{k} B {name}"));
+                l.push("settle".into());
+                open.push((name, 0));
+            }
+            5 | 6 => {
+                // B connects, the peer answers (or not)
+                l.push(format!("connect c{k} B q{k} wait=1"));
+                l.push("settle".into());
+                match r.below(4) {
+                    0 | 1 => {
+                        l.push(format!("injectm A portOpened $open{bconn} {}", 5000 + k));
+                        l.push("settle".into());
+                        open.push((format!("q{k}"), 0));
+                    }
+                    2 => {
+                        l.push(format!("injectm A rejected $open{bconn} {}", r.bool() as u8));
+                        l.push("settle".into());
+                    }
+                    _ => {}
+                }
+                bconn += 1;
+            }
+            7..=11 => {
+                // valid data within chunk size and credit
+                if open.is_empty() {
+                    continue;
+                }
+                let idx = r.below(open.len() as u64) as usize;
+                let len = r.below(chunk + 1);
+                let cost = len.max(1);
+                if open[idx].1 + cost > buf {
+                    continue;
+                }
+                open[idx].1 += cost;
+                let name = open[idx].0.clone();
+                l.push(format!("injectm A data ${name} 1 1"));
+                l.push(format!("inject A {}", hex(&r.bytes(len as usize))));
+                l.push("settle".into());
+            }
+            12..=14 => {
+                // the local application consumes one message
+                if let Some(idx) = (0..open.len()).find(|i| open[*i].1 > 0) {
+                    let name = open[idx].0.clone();
+                    l.push(format!("recvany r{k} B {name}"));
+                    l.push("settle".into());
+                    // exact cost unknown to the generator after several messages: be conservative
+                    open[idx].1 = open[idx].1.saturating_sub(1).min(buf);
+                    if r.bool() {
+                        open[idx].1 = 0;
+                        for j in 0..4 {
+                            l.push(format!("recvany r{k}x{j} B {name}"));
+                        }
+                        l.push("settle".into());
+                        l.push(format!("cancel r{k}x0"));
+                        l.push(format!("cancel r{k}x1"));
+                        l.push(format!("cancel r{k}x2"));
+                        l.push(format!("cancel r{k}x3"));
+                        l.push("settle".into());
+                    }
+                }
+            }
+            15 => {
+                // odd but legal
+                match r.below(6) {
+                    0 => l.push("injectm A ping".into()),
+                    1 => l.push("injectm A listenerFinish".into()),
+                    2 => l.push("injectm A clientFinish".into()),
+                    3 => {
+                        if let Some((name, _)) = open.first() {
+                            l.push(format!("injectm A receiveFinish ${name}"));
+                            l.push(format!("injectm A receiveFinish ${name}"));
+                        }
+                    }
+                    4 => {
+                        if let Some((name, _)) = open.first() {
+                            l.push(format!("injectm A portCredits ${name} {}", r.below(100)));
+                        }
+                    }
+                    _ => {
+                        // unanswered request left in the listener queue
+                        if unanswered < cq {
+                            l.push(format!("injectm A openPort {} 1 -", 700 + k));
+                            unanswered += 1;
+                        }
+                    }
+                }
+                l.push("settle".into());
+            }
+            _ => {
+                // one violating (or terminating) frame
+                terminal = true;
+                let name = open.first().map(|(n, _)| n.clone());
+                match r.below(22) {
+                    0 => l.push("inject A 63".into()),
+                    1 => l.push("inject A -".into()),
+                    2 => l.push("inject A 0701".into()),
+                    3 => l.push("injectm A hello 3 0 8 16 1".into()),
+                    4 => l.push("injectm A reset".into()),
+                    5 => {
+                        l.push("injectm A data 123456 1 1".into());
+                        l.push("inject A 00".into());
+                    }
+                    6 => {
+                        // data for a port that is only connecting
+                        l.push(format!("connect cx{k} B qx{k} wait=1"));
+                        l.push("settle".into());
+                        l.push(format!("injectm A data $open{bconn} 1 1"));
+                        l.push("inject A 00".into());
+                    }
+                    7 => {
+                        if let Some(n) = &name {
+                            l.push(format!("injectm A data ${n} 1 0"));
+                            l.push(format!("inject A {}", hex(&r.bytes(chunk as usize + 1))));
+                        }
+                    }
+                    8 => {
+                        // exceed the credit: keep sending without the application consuming
+                        if let Some(n) = &name {
+                            let len = chunk.min(buf).max(1);
+                            for _ in 0..(buf / len + 2) {
+                                l.push(format!("injectm A data ${n} 1 1"));
+                                l.push(format!("inject A {}", hex(&r.bytes(len as usize))));
+                            }
+                        }
+                    }
+                    9 => {
+                        if let Some(n) = &name {
+                            l.push(format!("injectm A portCredits ${n} 4294967295"));
+                            l.push(format!("injectm A portCredits ${n} 4294967295"));
+                        }
+                    }
+                    10 => l.push("injectm A portCredits 99999 1".into()),
+                    11 => {
+                        l.push("injectm A openPort 900 1 -".into());
+                        l.push("injectm A openPort 900 1 -".into());
+                    }
+                    12 => {
+                        for j in 0..(cq + 3) {
+                            l.push(format!("injectm A openPort {} 0 -", 800 + j));
+                        }
+                    }
+                    13 => {
+                        if let Some(n) = &name {
+                            l.push(format!("injectm A portOpened ${n} 77"));
+                        } else {
+                            l.push("injectm A portOpened 31337 77".into());
+                        }
+                    }
+                    14 => l.push("injectm A rejected 31337 0".into()),
+                    15 => {
+                        if let Some(n) = &name {
+                            l.push(format!("injectm A sendFinish ${n}"));
+                            l.push(format!("injectm A sendFinish ${n}"));
+                        }
+                    }
+                    16 => {
+                        if let Some(n) = &name {
+                            l.push(format!("injectm A receiveClose ${n}"));
+                            l.push(format!("injectm A receiveClose ${n}"));
+                        }
+                    }
+                    17 => l.push("injectm A receiveFinish 4242".into()),
+                    18 => {
+                        if let Some(n) = &name {
+                            match r.below(3) {
+                                0 => l.push(format!("injectm A portData ${n} 1 1 1 5,5 none")),
+                                1 => {
+                                    let cnt = chunk / 4 + 1;
+                                    let ps: Vec<String> = (0..cnt).map(|j| (600 + j).to_string()).collect();
+                                    l.push(format!("injectm A portData ${n} 1 1 1 {} none", ps.join(",")));
+                                }
+                                _ => {
+                                    for j in 0..(buf / 4 + 1) {
+                                        l.push(format!("injectm A portData ${n} 1 1 0 {} none", 300 + j));
+                                    }
+                                }
+                            }
+                        }
+                    }
+                    19 => {
+                        // flood of port batches without ports (cost no credit), then look at the queue
+                        if let Some(n) = &name {
+                            for _ in 0..(buf + 40) {
+                                l.push(format!("injectm A portData ${n} 0 0 0 - none"));
+                            }
+                            l.push("settle".into());
+                            l.push(format!("probe pr{k} B {n}"));
+                        }
+                    }
+                    20 => {
+                        for _ in 0..(cq + 3) {
+                            l.push("injectm A clientFinish".into());
+                        }
+                    }
+                    _ => l.push("injectm A goodbye".into()),
+                }
+                l.push("settle".into());
+                break;
+            }
+        }
+    }
+    // afterwards every local API call must return (with an error if the dispatcher is gone)
+    k += 100;
+    if let Some((name, _)) = open.first() {
+        l.push(format!("send s{k} B {name} 0102"));
+        l.push(format!("recvany r{k} B {name}"));
+        l.push("settle".into());
+        if !terminal {
+            l.push(format!("cancel r{k}"));
+            l.push(format!("cancel s{k}"));
+        }
+    }
+    if terminal {
+        l.push(format!("connect c{k} B z{k} wait=1"));
+        l.push(format!("accept a{k} B y{k}"));
+        l.push("settle".into());
+    }
     l.push("settle".into());
     l.push("end".into());
     l
